@@ -99,6 +99,8 @@ func runC01(c *Ctx) {
 	// stream "unpriced": valued reports of journals from which price declarations were withdrawn, with transactions of
 	// many bookings in which bookings of an unpriced commodity stand before, between and after priced ones
 	c01Eval(c, bt, "unpriced", c01GenUnpriced(c, "unpriced", c.N(1500, 12000)))
+	// stream "dust": quantities of 9-20 decimal places (down to 1e-20) in deep account trees, next to ordinary amounts
+	c01Eval(c, bt, "dust", c01GenDust(c, "dust", c.N(1200, 12000)))
 }
 
 // c01Eval evaluates the property predicate on the REAL output of every case the real command accepts (whatever the
@@ -167,6 +169,12 @@ func c01GenUnpriced(c *Ctx, stream string, n int) []*balCase {
 		text, _ := j.Text()
 		cases = append(cases, &balCase{Idx: i, J: j, Text: text, F: f, Tags: tags})
 	}
+	c01RunCases(c, dir, cases)
+	return cases
+}
+
+// c01RunCases runs the real `knut balance` on every case.
+func c01RunCases(c *Ctx, dir string, cases []*balCase) {
 	parallelFor(len(cases), 16, func(k int) {
 		bc := cases[k]
 		path := filepath.Join(dir, fmt.Sprintf("c%d.knut", bc.Idx))
@@ -176,7 +184,6 @@ func c01GenUnpriced(c *Ctx, stream string, n int) []*balCase {
 		bc.Code, bc.Stdout, bc.Stderr = runKnut(c.KnutBin, 20*time.Second, nil, args...)
 		os.Remove(path)
 	})
-	return cases
 }
 
 // c01Regroup withdraws price declarations and regroups the transactions of a generated journal; every change keeps
@@ -515,4 +522,258 @@ func c01Regroup(r *RNG, j *Journal, val string) []string {
 	}
 	sort.Strings(tags)
 	return tags
+}
+
+// ---------------------------------------------------------------- stream dust: quantities far below 1e-8
+//
+// The other streams write quantities of at most ~8 decimal places. The property speaks about every quantity the parser
+// accepts: the Delta row is zero because debits and credits are the SAME exact decimal, however small. Here small journals
+// over deep account trees (accounts with and without own bookings above sub-accounts, in all five account types) carry
+// quantities of 9-20 decimal places down to 1e-20 (c01DustLiteral; the sizes around every power of ten from 1e-6 to
+// 1e-20, and the literals of C02's stream magnitude, c02MagLiteral): single dust bookings into deep sub-accounts, dust next
+// to ordinary amounts in the same commodity, dust that sums to zero only across accounts (also across days), ordinary
+// amounts with a dust tail; unvalued, valued in the same commodity (value = quantity) and in another one (values are
+// truncated to 8 decimals: dust has value 0), all period flags, --diff, --close=false.
+// (Seeded change C01-l made Amounts.SumIntoBy delete sums below 1e-8 instead of zero sums - applied to the RUNNING
+// total of Report.Totals, on one side of the report only.)
+
+// c01DustLiteral draws a quantity literal and its class.
+func c01DustLiteral(r *RNG) (string, string) {
+	neg := func(s string) string {
+		if r.Chance(1, 3) {
+			return "-" + s
+		}
+		return s
+	}
+	switch r.Intn(10) {
+	case 0, 1: // ordinary
+		return Pick(r, []string{fmt.Sprintf("%d.%02d", r.Intn(2000), r.Intn(100)), fmt.Sprintf("%d", r.Range(1, 5000)), fmt.Sprintf("-%d.%d", r.Intn(500), r.Intn(10)), "1", "2"}), "ordinary"
+	case 2: // the literals of C02's stream magnitude (huge, tiny, boundaries)
+		q, _ := c02MagLiteral(r)
+		return q, "magnitude"
+	case 3: // an ordinary amount with a dust tail
+		return neg(fmt.Sprintf("%d.%02d", r.Intn(300), r.Intn(100)) + strings.Repeat("0", r.Range(6, 17)) + fmt.Sprintf("%d", r.Range(1, 9))), "tail"
+	case 4: // at and around a power of ten: 1e-k, 1e-k - 1e-(k+j), 1e-k + 1e-(k+j)
+		k := Pick(r, []int{6, 7, 8, 8, 8, 9, 9, 10, 12, 16, 18, 20})
+		one := "0." + strings.Repeat("0", k-1)
+		switch r.Intn(3) {
+		case 0:
+			return neg(one + "1"), fmt.Sprintf("pow%d", k)
+		case 1:
+			return neg("0." + strings.Repeat("0", k) + strings.Repeat("9", r.Range(1, 6))), fmt.Sprintf("pow%d-", k)
+		}
+		return neg(one + "1" + strings.Repeat("0", r.Intn(5)) + "1"), fmt.Sprintf("pow%d+", k)
+	}
+	// dust: 9-20 decimal places
+	z := r.Range(8, 19)
+	ds := fmt.Sprintf("%d", r.Range(1, 9))
+	if z < 19 && r.Bool() {
+		ds = fmt.Sprintf("%d", r.Range(1, 99))
+	}
+	return neg("0." + strings.Repeat("0", z) + ds), fmt.Sprintf("dust%d", (z+len(ds))/4*4)
+}
+
+func c01GenDustJournal(r *RNG) (*Journal, string, []string) {
+	tagSet := map[string]bool{}
+	segs := []string{"Bank", "Cash", "Wallet", "Cold", "Main", "Sub", "X", "Y", "Salary", "Rent", "Fees", "Épargne"}
+	// the account tree: chains below existing accounts are frequent (parents with and without own bookings)
+	accounts := []string{"Assets:" + Pick(r, segs), "Equity:" + Pick(r, []string{"Equity", "Equity", "Opening"})}
+	seen := map[string]bool{accounts[0]: true, accounts[1]: true}
+	for nacc, tries := r.Range(3, 9), 0; len(accounts) < nacc && tries < 50; tries++ {
+		a := Pick(r, typeNames) + ":" + Pick(r, segs)
+		if r.Chance(1, 2) {
+			a = Pick(r, accounts)
+		}
+		for k := Pick(r, []int{0, 1, 1, 1, 2, 3}); k > 0; k-- {
+			a += ":" + Pick(r, segs)
+		}
+		if !seen[a] {
+			seen[a] = true
+			accounts = append(accounts, a)
+		}
+	}
+	depth := func(a string) int { return strings.Count(a, ":") }
+	var deep []string
+	for _, a := range accounts {
+		if depth(a) >= 2 {
+			deep = append(deep, a)
+		}
+	}
+	if len(deep) == 0 {
+		deep = accounts
+	}
+	coms := []string{Pick(r, []string{"ETH", "CHF", "BTC"})}
+	for _, cm := range []string{"USD", "WEI", "chf"} {
+		if r.Chance(1, 4) {
+			coms = append(coms, cm)
+		}
+	}
+	main := coms[0]
+	// valuation: none, in a commodity of the journal (value = quantity for it), in another one
+	val := ""
+	switch r.Intn(4) {
+	case 0:
+		val = Pick(r, coms)
+		tagSet["val-same"] = true
+	case 1:
+		val = "EUR"
+		tagSet["val-other"] = true
+	default:
+		tagSet["val-none"] = true
+	}
+	base := 737000 + r.Intn(1500)
+	span := Pick(r, []int{0, 5, 40, 100, 400})
+	daySet := map[int]bool{}
+	for k := r.Range(1, 6); k > 0; k-- {
+		daySet[base+r.Intn(span+1)] = true
+	}
+	var days []int
+	for d := range daySet {
+		days = append(days, d)
+	}
+	sortInts(days)
+	j := &Journal{}
+	openDay := days[0] - Pick(r, []int{0, 0, 1, 400})
+	for _, a := range accounts {
+		j.Dirs = append(j.Dirs, JDir{Kind: 'o', Date: openDay, Account: a})
+	}
+	price := func() string {
+		return Pick(r, []string{"2000", "2500.5", "0.95", "1", fmt.Sprintf("%d.%02d", r.Range(1, 90000), r.Intn(100)), "0.00001234", "0.000000012345", "100000000"})
+	}
+	if val != "" {
+		for _, cm := range coms {
+			if cm != val {
+				j.Dirs = append(j.Dirs, JDir{Kind: 'p', Date: openDay, Com: cm, Price: price(), Target: val})
+			}
+		}
+	}
+	other := func(a string) string {
+		b := Pick(r, accounts)
+		if b == a {
+			b = accounts[(indexOf(accounts, a)+1)%len(accounts)]
+		}
+		return b
+	}
+	dust := func() string {
+		for {
+			if q, cl := c01DustLiteral(r); strings.HasPrefix(cl, "dust") || strings.HasPrefix(cl, "pow") {
+				tagSet["qty:"+cl] = true
+				return q
+			}
+		}
+	}
+	scenario := Pick(r, []string{"single-deep", "single-deep", "pair-across", "pair-across-days", "mixed", "mixed", "dust-only", "split"})
+	tagSet["shape:dust-"+scenario] = true
+	at := r.Intn(len(days)) // the day of the scenario's bookings
+	var late []JDir
+	for di, day := range days {
+		if val != "" && di > 0 && r.Chance(1, 3) {
+			for _, cm := range coms {
+				if cm != val && r.Bool() {
+					j.Dirs = append(j.Dirs, JDir{Kind: 'p', Date: day, Com: cm, Price: price(), Target: val})
+				}
+			}
+		}
+		var ts []JDir
+		nt := r.Range(0, 3)
+		if scenario == "dust-only" && nt == 0 {
+			nt = 1
+		}
+		for k := nt; k > 0; k-- {
+			t := JDir{Kind: 't', Date: day, Desc: Pick(r, []string{"t", "transfer", "sweep", "fee"})}
+			for b := Pick(r, []int{1, 1, 1, 2, 3}); b > 0; b-- {
+				cr := Pick(r, accounts)
+				q, cl := c01DustLiteral(r)
+				if scenario == "dust-only" {
+					q, cl = dust(), "dust"
+				} else if scenario != "mixed" && r.Chance(2, 3) { // the scenario's dust among ordinary amounts only
+					q, cl = Pick(r, []string{fmt.Sprintf("%d", r.Range(1, 900)), fmt.Sprintf("%d.%02d", r.Intn(3000), r.Intn(100))}), "ordinary"
+				}
+				tagSet["qty:"+cl] = true
+				cm := main
+				if r.Chance(1, 4) {
+					cm = Pick(r, coms)
+				}
+				t.Bookings = append(t.Bookings, JBook{cr, other(cr), q, cm})
+			}
+			ts = append(ts, t)
+		}
+		if di == at {
+			t := JDir{Kind: 't', Date: day, Desc: "dust"}
+			a := Pick(r, deep)
+			src := other(a)
+			switch scenario {
+			case "single-deep": // one dust booking into a deep sub-account
+				t.Bookings = append(t.Bookings, JBook{src, a, dust(), main})
+			case "pair-across", "pair-across-days": // +d into one account, -d into another: zero only across accounts
+				b := Pick(r, deep)
+				if b == a {
+					b = other(a)
+				}
+				d := dust()
+				t.Bookings = append(t.Bookings, JBook{src, a, d, main})
+				t2 := t
+				t2.Bookings = []JBook{{b, Pick(r, []string{src, src, other(b)}), d, main}}
+				if scenario == "pair-across-days" {
+					t2.Date = days[r.Intn(len(days)-at)+at]
+				}
+				if t2.Date == day && r.Bool() {
+					t.Bookings = append(t.Bookings, t2.Bookings...)
+				} else if t2.Date == day {
+					ts = append(ts, t2)
+				} else {
+					late = append(late, t2) // a later day
+				}
+			case "split": // an ordinary amount leaves as amount - d and d, to a parent and one of its sub-accounts
+				d := dust()
+				dd, _ := decimal.NewFromString(d)
+				q := decimal.New(int64(r.Range(1, 500)), int32(-r.Intn(3)))
+				parent := a[:strings.LastIndex(a, ":")]
+				if !seen[parent] || depth(parent) < 1 {
+					parent = other(a)
+				}
+				t.Bookings = append(t.Bookings, JBook{src, parent, q.Sub(dd).String(), main}, JBook{src, a, d, main})
+			default: // mixed, dust-only: one more dust booking anywhere
+				t.Bookings = append(t.Bookings, JBook{src, Pick(r, accounts), dust(), Pick(r, coms)})
+				if t.Bookings[0].Credit == t.Bookings[0].Debit {
+					t.Bookings[0].Debit = other(src)
+				}
+			}
+			ts = append(ts, JDir{})
+			k := r.Intn(len(ts))
+			copy(ts[k+1:], ts[k:])
+			ts[k] = t
+		}
+		j.Dirs = append(j.Dirs, ts...)
+	}
+	j.Dirs = append(j.Dirs, late...)
+	sort.SliceStable(j.Dirs, func(x, y int) bool { return j.Dirs[x].Date < j.Dirs[y].Date })
+	var tags []string
+	for t := range tagSet {
+		tags = append(tags, t)
+	}
+	sort.Strings(tags)
+	return j, val, tags
+}
+
+// c01GenDust generates the cases of stream "dust" and runs the real `knut balance` on them.
+func c01GenDust(c *Ctx, stream string, n int) []*balCase {
+	dir := filepath.Join(c.WorkDir, stream)
+	os.MkdirAll(dir, 0o755)
+	var cases []*balCase
+	for i := 0; i < n; i++ {
+		if !c.Want(stream, i) {
+			continue
+		}
+		r := c.Rng(stream, i)
+		j, val, tags := c01GenDustJournal(r)
+		f := GenBalFlags(r, j, val, BalGenOpts{Valued: true, NoFilters: true})
+		if !f.CSV && r.Chance(1, 2) {
+			f.Digits = Pick(r, []int{8, 9, 12, 20}) // show the decimals the journal carries
+		}
+		text, _ := j.Text()
+		cases = append(cases, &balCase{Idx: i, J: j, Text: text, F: f, Tags: tags})
+	}
+	c01RunCases(c, dir, cases)
+	return cases
 }
